@@ -614,12 +614,28 @@ def wReturns (s : Sig) : WS → List (List V) → Nat → WS × R Unit
     | .error e => (w, .error e)
     | .ok w1 => wReturns s w1 rest (i + 1)
 
-/-- when.go:123 `(*When).In` → matcher.go:157 `newContainsMatch` → expr.go:71 `InExpr.Resolve`: one `ToExpr` per group
-    (non-variadic targets) -/
+/-- value.go:116 `ToExpr` with `isVariadic = true` (only `InExpr.Resolve` calls it so): at least the fixed parameters
+    must be given, and every argument from the variadic position on is resolved against the element type -/
+def exprLoopV (types : List Ty) (velem : Ty) : List V → Nat → Except TvErr Unit
+  | [], _ => pure ()
+  | a :: rest, i =>
+    let t := if i + 1 < types.length then types[i]?.getD velem else velem       -- value.go:130-138
+    match (match a with | .expr => pure () | _ => toValue a t) with
+    | .error e => .error e
+    | .ok _ => exprLoopV types velem rest (i + 1)
+
+def toExprV (args : List V) (types : List Ty) (velem : Ty) : Except ConvErr Unit :=
+  if args.length < types.length - 1 then .error .count                           -- value.go:118
+  else match exprLoopV types velem args 0 with
+    | .ok _ => pure ()
+    | .error e => .error (.tv e)
+
+/-- when.go:123 `(*When).In` → matcher.go:157 `newContainsMatch` → expr.go:71 `InExpr.Resolve`: one `ToExpr` per group,
+    with the target's variadic flag -/
 def wIn (s : Sig) (isM : Bool) (w : WS) : List (List V × Bool) → Bool → R WS
   | [], hit => pure { w with hasCur := true, curHit := hit }
   | (g, h) :: rest, hit =>
-    match toExpr g (inTypes isM s) with
+    match (if s.variadic then toExprV g (inTypes isM s) s.velem else toExpr g (inTypes isM s)) with
     | .ok _ => wIn s isM w rest (hit || h)
     | .error .count => rStr .inCount
     | .error (.tv .typeMismatch) => rStr .inType
